@@ -289,6 +289,8 @@ def case_spec(recipe, env):
 # ---------------------------------------------------------------------------------------------
 
 def launch_workers(base_seed, n, nshards, tier, configs=CONFIGS):
+    """Workers write to temporary files (a pipe would stall every worker but the one being read)."""
+    import tempfile
     procs = []
     for tco, tc in configs:
         for sh in range(nshards):
@@ -298,23 +300,33 @@ def launch_workers(base_seed, n, nshards, tier, configs=CONFIGS):
             e["FUNSOR_BACKEND"] = "numpy"
             e["PYTHONDONTWRITEBYTECODE"] = "1"
             e["PYTHONHASHSEED"] = "0"
+            e["OMP_NUM_THREADS"] = "1"
+            out = tempfile.TemporaryFile(mode="w+")
+            err = tempfile.TemporaryFile(mode="w+")
             p = subprocess.Popen([sys.executable, "-B", "-m", "fv.harness.c03_worker", str(base_seed), str(n),
                                   str(sh), str(nshards), tier],
-                                 cwd=str(VERIF), env=e, stdout=subprocess.PIPE, stderr=subprocess.PIPE, text=True)
-            procs.append(((tco, tc), sh, p))
+                                 cwd=str(VERIF), env=e, stdout=out, stderr=err, text=True)
+            procs.append(((tco, tc), sh, p, out, err))
     return procs
 
 
 def collect(procs, ctx, timeout):
     """-> {config: {case index: record}}"""
+    import time
+    deadline = time.time() + timeout
     out = {}
-    for cfg, sh, p in procs:
+    for cfg, sh, p, fo, fe in procs:
         try:
-            so, se = p.communicate(timeout=timeout)
+            p.wait(timeout=max(1, deadline - time.time()))
         except subprocess.TimeoutExpired:
             p.kill()
             ctx.infra_errors.append(f"worker {cfg} shard {sh} timed out")
             continue
+        fo.seek(0)
+        fe.seek(0)
+        so, se = fo.read(), fe.read()
+        fo.close()
+        fe.close()
         recs = out.setdefault(cfg, {})
         done = False
         for line in so.splitlines():
@@ -537,8 +549,10 @@ def check_memo(ctx, recs_by_cfg, use_driver=True):
                          python=None)
             if j != i:
                 ctx.count("memo-repeats")
+        ctx.count("memo-value-inconclusive (a side stays lazy)", sum(1 for ok in m["value_ok"] if ok is None))
+        ctx.count("memo-value-checked", sum(1 for ok in m["value_ok"] if ok is True))
         for i, ok in enumerate(m["value_ok"]):
-            if not ok:
+            if ok is False:
                 ctx.fail("input", "C03.memoize-wrong-result",
                          witness={"history": m["desc"], "request": i, "config": list(cfg), "base": m["base"]},
                          expected="the value the base interpretation computes for these arguments",
@@ -680,7 +694,7 @@ def spec_requests(ctx, cs):
 
 def sizes(ctx):
     if ctx.tier == "quick":
-        return 260, 1
+        return 260, 3
     return 5200, 4
 
 
@@ -754,9 +768,10 @@ def demonstrate_collision(A, B, wit):
                         got = Y(*args)
             except Exception:
                 continue
-            a, b = W.canonical(want, ins), W.canonical(got, ins)
-            same = (a[0] == b[0] == "value" and W.digest(a[1]) == W.digest(b[1])) or (a[0] == b[0] != "value")
-            if not same:
+            a, b = W.force(want, ins), W.force(got, ins)
+            if a[0] != "value" or b[0] != "value":
+                continue             # a side stays lazy (e.g. Align(Number, ())): inconclusive
+            if W.digest(a[1]) != W.digest(b[1]):
                 return {"args": repr(args)[:300], "expected": f"{Y.__name__}{args!r} = {a}"[:500],
                         "got": f"cached {X.__name__} result {b}"[:500],
                         "python": None}
